@@ -20,5 +20,5 @@ for f in $SHARED; do
 done
 echo "--- known_findings diff:"; git diff HEAD...FETCH_HEAD -- known_findings.jsonl | grep '^[+-]' | grep -v '^+++\|^---' || true
 echo "--- harness/Cargo.toml diff:"; git diff HEAD...FETCH_HEAD -- harness/Cargo.toml | grep '^[+-]' | grep -v '^+++\|^---' || true
-git show FETCH_HEAD:vlib/registry.py > /tmp/reg_agent.py && python3 notes/import_registry.py /tmp/reg_agent.py
+git show FETCH_HEAD:vlib/registry.py > /tmp/reg_agent.py; grep -q "PROPS = {$" /tmp/reg_agent.py && python3 notes/import_registry.py /tmp/reg_agent.py || true
 python3 vlib/gen_manifest.py
